@@ -704,8 +704,64 @@ def rule_P12(ctx) -> None:
         ctx.inconclusive("P12", "FieldCompiler.optional:schema-flag", f"return expression not recognised: {[ast.unparse(r) for r in rets]}", models.loc(fn))
 
 
+def rule_P14(ctx, rule: str = "P14") -> None:
+    """what the members of a package record on the shared per-package output (import decisions, flags) accumulates: a write of a
+    declared OutputTemplate field from a per-member function keeps what earlier members recorded (set update / add, `x = x or
+    ..`, `x |= ..`, a constant True) - a plain overwrite makes the package-wide decision that of the last member processed"""
+    from ..absint import Interp
+    from ..sym import walk as _walk, show as _show, dotted as _dotted
+    models = ctx.repo.mod(M_MODELS)
+    out_cls = models.cls("OutputTemplate")
+    fields = {st.target.id for st in out_cls.body if isinstance(st, ast.AnnAssign) and isinstance(st.target, ast.Name)}
+    if "builtins_import" not in fields and len(fields) < 5:
+        raise AnalysisError("OutputTemplate lost its declared state fields")
+    n = 0
+    for q, fn in models.functions():
+        if q.startswith("OutputTemplate.") or q.startswith("PluginRequestCompiler."):
+            continue
+        # writes through a receiver that is the shared output: a parameter annotated OutputTemplate, or <x>.output_file
+        recv_params = {a.arg for a in fn.args.args + fn.args.kwonlyargs if a.annotation is not None and "OutputTemplate" in ast.unparse(a.annotation)}
+        def is_out(t: ast.AST) -> bool:
+            return (isinstance(t, ast.Name) and t.id in recv_params) or (isinstance(t, ast.Attribute) and t.attr == "output_file")
+        sites = [st for st in ast.walk(fn) if isinstance(st, (ast.Assign, ast.AnnAssign)) and any(
+            isinstance(t, ast.Attribute) and t.attr in fields and is_out(t.value) for t in (st.targets if isinstance(st, ast.Assign) else [st.target]))]
+        if not sites:
+            continue
+        if q.endswith(".__post_init__") and False:
+            continue
+        paths = Interp(models).run(fn)
+        ctx.count(len(paths))
+        ctx.analysed(q)
+        bad = None
+        seen = 0
+        for p_ in paths:
+            for e in p_.events:
+                if e.kind != "store" or e.depth != 0:
+                    continue
+                tgt, val = e.data[0], e.data[1]
+                if not (tgt[0] == "a" and tgt[2] in fields and (tgt[1][0] == "n" and tgt[1][1] in recv_params or (tgt[1][0] == "a" and tgt[1][2] == "output_file"))):
+                    continue
+                seen += 1
+                keeps = (val[0] == "op" and val[1] in ("or", "|") and tgt in val[2:]) or val == ("c", True) \
+                    or (val[0] == "call" and val[1][0] == "a" and val[1][2] in ("union",) and val[1][1] == tgt) \
+                    or (val[0] == "call" and _dotted(val[1]) == "max" and tgt in val[2])
+                if not keeps and bad is None:
+                    bad = (tgt, val, e.line)
+        n += 1
+        name = f"{q}:accumulates"
+        if bad is not None:
+            ctx.refuted(rule, name, _show(bad[0]).split(".")[-1], f"{M_MODELS}:{bad[2]}",
+                        f"{q} runs once per member and stores {_show(bad[0])} = {_show(bad[1])}: what earlier members recorded on the shared output is overwritten, so the "
+                        "package-wide decision (an import line) reflects only the last member processed", "a builtin-shadowing field followed by an ordinary field")
+        elif seen == 0:
+            ctx.inconclusive(rule, name, "the write of the shared output was not seen on any path", models.loc(fn))
+        else:
+            ctx.proved(rule, name, models.loc(fn), f"{seen} accumulating writes")
+    ctx.floor(rule, "per-member writers of shared output flags", n, 1)
+
+
 def run(ctx) -> None:
-    for name, fn in (("P1", template.rule_P1), ("P2", rule_P2), ("P3", rule_P3), ("P4", rule_P4), ("P5", rule_P5), ("P6", rule_P6), ("P7", rule_P7), ("P8", rule_P8), ("Y2iii", template.rule_Y2iii), ("P9", rule_P9), ("P10", rule_P10), ("P11", rule_P11), ("P12", rule_P12), ("P13", rule_P13)):
+    for name, fn in (("P14", rule_P14), ("P1", template.rule_P1), ("P2", rule_P2), ("P3", rule_P3), ("P4", rule_P4), ("P5", rule_P5), ("P6", rule_P6), ("P7", rule_P7), ("P8", rule_P8), ("Y2iii", template.rule_Y2iii), ("P9", rule_P9), ("P10", rule_P10), ("P11", rule_P11), ("P12", rule_P12), ("P13", rule_P13)):
         ctx.rules_run.append(name)
         fn(ctx)
     from . import phases
